@@ -7,6 +7,7 @@ from .._change import ListInsert
 from .._change import Replace
 from .._global_state import state
 from .._sentinels import undefined
+from .._unmanaged import Unmanaged
 from .._utils import value_to_token
 from .generic_value import GenericValue
 from .generic_value import clone
@@ -69,6 +70,8 @@ class CollectionValue(GenericValue):
 
             if (
                 old_node is not None
+                and not isinstance(old_value, Unmanaged)
+                and not isinstance(old_node, ast.JoinedStr)
                 and self._file._token_of_node(old_node) != new_token
             ):
                 new_code = self._file._token_to_code(new_token)
